@@ -2,7 +2,7 @@
 (* Position bookkeeping: for every input up to MaxIn characters (ASCII, newline, multi-byte, invalid byte)
    and every way of splitting it into spans, folding lexer.Position.Advance over the spans gives the
    position PosOf defines from the input alone.  Every explored step is printed and replayed on the real
-   Position.Advance.                                                                         *)
+   Position.Advance; AddIsRelative states what Position.Add computes (replayed on the real Position.Add).                                                                         *)
 EXTENDS Position, Integers, Sequences, TLC
 CONSTANTS MaxIn
 \* characters: <<code, width, newline, name>>
@@ -17,6 +17,13 @@ InputName(inp, k) == IF k > Len(inp) THEN "" ELSE Alpha[inp[k]][4] \o InputName(
 Init == input \in UNION {[1..n -> 1..Len(Alpha)] : n \in 0..MaxIn} /\ i = 1 /\ pos = StartPos
 Step(j) == /\ pos' = Advance(pos, Chars(input), i, j) /\ i' = j /\ UNCHANGED input
            /\ PrintT("ADV|" \o InputName(input, 1) \o "|" \o ToString(i) \o "|" \o ToString(j) \o "|" \o PosStr(pos) \o "|" \o PosStr(pos'))
+\* lexer.Position.Add: for every place a the embedded text input[a ..] starts at, the position of character i inside it
+\* (counted from 0:1:1) added to the position of a is the position of i in the whole input.  Every instance is printed and
+\* replayed on the real Position.Add.
+AddIsRelative == \A a \in 1..i :
+   LET c == Chars(input)  pa == PosOf(c, a)  rel == PosOf(TextFrom(c, a), i - a + 1) IN
+   /\ PrintT("ADD|" \o PosStr(pa) \o "|" \o PosStr(rel) \o "|" \o PosStr(Add(pa, rel)))
+   /\ Add(pa, rel) = PosOf(c, i)
 Next == \E j \in (i + 1)..(Len(input) + 1) : Step(j)
 Spec == Init /\ [][Next]_vars
 AdvanceFoldsToPosOf == pos = PosOf(Chars(input), i)
